@@ -9,7 +9,7 @@
 //!   ref N                 `ref <hex Display> <FromStr of it>`          referent.rs Display / FromStr
 //!   refp BYTES            `refp OK n | ERR empty|invalid|pos|neg`        Ref::from_str on any string
 //!   uid I T R             `uid <hex Display> <FromStr of it>`           unique_id.rs
-//!   uidp BYTES            `uidp OK i t r | ERR len|empty|invalid|pos|neg | PANIC`
+//!   uidp BYTES            `uidp OK i t r | ERR len|empty|invalid|pos|neg | PANIC`  (PANIC: only before /repo 680c0119)
 //!   tags K BYTES*         `tags <hex encode> <decode of it>`            tags.rs
 //!   tagsd BYTES           `tagsd OK k bytes* | ERR utf8`
 //!   mc K (IDX R G B)*     `mc <hex encode> <decode of it>`              material_colors.rs
@@ -29,7 +29,7 @@
 //!                         type, re-encodes to the same JSON.
 //! `ref`, `uid`, `tags`, `mc`, `faces`, `axes`, `brick` items also push their value through the serde sweep.
 //!
-//! Oracle lines: `<case> C17 <key> <message>`; keys are stable words (`uniqueid-negative-random`,
+//! Oracle lines: `<case> C17 <key> <message>`; keys are stable words (`uniqueid-negative-random`, `uniqueid-fromstr-panic`,
 //! `sharedstring-reader`, `binarystring-value`, `faces-reader`, `tags-empty`, ...): `<type>-<entry point>` for
 //! the sweep.  At most 40 lines per key are written; totals per key are in the statistics.
 use crate::rng::Rng;
@@ -474,9 +474,11 @@ fn run_item(run: &mut Run, line: &str, out: &mut Out) -> Result<(), String> {
         }
         "uidp" => {
             let s = t.utf8()?;
-            let (res, _, _) = uid_parse(&s);
+            let (res, _, msg) = uid_parse(&s);
             if res == "PANIC" {
+                // from_str returns a Result: a panic is a defect of its own (the char-boundary slice before /repo 680c0119)
                 run.bump("uid_from_str_panics");
+                out.oracle.push(("uniqueid-fromstr-panic".into(), format!("UniqueId::from_str({s:?}) ({} bytes) panics: {msg}", s.len())));
             }
             out.obs.push(format!("uidp {res}"));
         }
@@ -829,7 +831,7 @@ const UID_STRINGS: [&str; 22] = [
     "000000000000000000000000-0000001",
     "000000000000000g0000000000000000",
     "0000000000000000000000000000000g",
-    "000000000000000é000000000000000",   // 32 bytes, é straddles the random/time boundary: slice panics
+    "000000000000000é000000000000000",   // 32 bytes, é straddles the random/time boundary (panicked before /repo 680c0119)
     "00000000000000000000000é0000000",   // é straddles the time/index boundary
     "00000000é0000000000000000000000",   // é inside the random field
     "00000000000000000000000000000é",     // 31 bytes: a length error
